@@ -647,6 +647,13 @@ func c14MenuProcessor(c *vk.Ctx) {
 			ref.Add(e.bop, e.choice, e.display, e.target)
 		}
 		got, want := mp.ToLines(), ref.ToLines()
+		// encoding is a read: asked again (once to measure, once to write), the processor answers the same
+		if again := mp.ToLines(); !bytes.Equal(again, got) {
+			gp, _, _ := codec.Decode(got)
+			ap, _, _ := codec.Decode(again)
+			c.Violate("menu-processor:second-encoding-differs", fmt.Sprintf("entries %v: ToLines first gives %v, called again %v", accepted, codec.Strings(gp), codec.Strings(ap)), "menu-processor", map[string]interface{}{"entries": fmt.Sprint(all)})
+			return
+		}
 		c.EvalN(1, 1)
 		c.Count("menu_processor_sequences", 1)
 		c.Count("menu_processor_entries_refused", int64(len(all)-len(accepted)))
